@@ -18,6 +18,7 @@ let s_ures = function
   | UOk (ms, r) -> "OK:" ^ s_nums ms ^ ":" ^ hb r
   | UBadPass -> "BAD"
   | UError -> "ERR"
+  | USkip -> "SKIP"
 let s_rres = function
   | RUnprot (ms, chk, ok) -> "U:" ^ s_nums ms ^ ":" ^ hb chk ^ ":" ^ bool_s ok
   | RProt (bl, u) -> "P:" ^ s_blob bl ^ ":" ^ s_ures u
